@@ -314,6 +314,16 @@ func (r *storeRun) open(dir string) (*comet.PersistentHybridIndex, bool) {
 		return nil, false
 	}
 	if r.cv && r.vecKind == "ivf" { // a trained template is needed before the first add of every session
+		if (r.ct || r.cm) && r.rng.Intn(2) == 0 {
+			// a text / metadata query before training: the segments are loaded while the vector template is still untrained
+			r.mute.Store(true)
+			if r.ct {
+				st.NewSearch().WithText("w1 w2 w3").WithK(5).Execute()
+			} else {
+				st.NewSearch().WithMetadata(comet.Gte("k", 0)).WithK(5).Execute()
+			}
+			r.mute.Store(false)
+		}
 		tr := [][]float32{}
 		for i := 0; i < 12; i++ {
 			tr = append(tr, []float32{float32(i), 0})
